@@ -36,6 +36,7 @@ Mutant2 == {<<"open", "write", "link", "fsync", "close", "unlink", "exit0">>}   
 Mutant3 == {<<"open", "write", "fsync", "link", "close", "unlink", "exit0">>}                          \* link before close
 Mutant4 == {<<"open", "write", "write", "fsync", "write", "close", "link", "unlink", "exit0">>}        \* data after the fsync
 Mutant5 == {<<"open", "write", "fsync", "close", "unlink", "exit0">>}                                  \* success without link
+Mutant6 == {<<"open", "write", "fsync", "close", "rename", "exit0">>}                                  \* rename instead of link (2 deliverers)
 LiftedProgs == LET rs == ndJsonDeserialize(IOEnv.PROGS) IN {rs[i].prog : i \in 1..Len(rs)}
 SmallMsgs == {<<>>, <<120>>, <<120, 10>>, <<120, 10, 121>>}
 TinyMsgs == {<<>>, <<120>>}
@@ -95,6 +96,12 @@ Link(p) ==
      /\ Goto(p, pc[p] + 1) /\ UNCHANGED <<tmp, file, wr, nf>>
   \/ /\ (new[nm[p]] # 0 \/ tmp[nm[p]] = 0) /\ Goto(p, FAIL) /\ UNCHANGED <<tmp, new, file, wr, nf>>
   \/ /\ Fault /\ Goto(p, FAIL) /\ UNCHANGED <<tmp, new, file, wr>>
+\* rename(tmp/name, new/name) - not what maildir(5) prescribes: it replaces an existing entry
+Rename(p) ==
+  \/ /\ tmp[nm[p]] # 0 /\ new' = [new EXCEPT ![nm[p]] = tmp[nm[p]]] /\ tmp' = [tmp EXCEPT ![nm[p]] = 0]
+     /\ Goto(p, pc[p] + 1) /\ UNCHANGED <<file, wr, nf>>
+  \/ /\ tmp[nm[p]] = 0 /\ Goto(p, FAIL) /\ UNCHANGED <<tmp, new, file, wr, nf>>
+  \/ /\ Fault /\ Goto(p, FAIL) /\ UNCHANGED <<tmp, new, file, wr>>
 Unlink(p) ==     \* result ignored
   /\ tmp' = [tmp EXCEPT ![nm[p]] = 0] /\ Goto(p, pc[p] + 1) /\ UNCHANGED <<new, file, wr, nf>>
 FailPath(p) ==   \* fail: tryunlinktmp(); _exit(1)
@@ -109,6 +116,7 @@ Step(p) ==
           [] op = "fsync"  -> Fsync(p)
           [] op = "close"  -> Close(p)
           [] op = "link"   -> Link(p)
+          [] op = "rename" -> Rename(p)
           [] op = "unlink" -> Unlink(p)
           [] op = "exit0"  -> Exit(p, 0) /\ UNCHANGED <<tmp, new, file, wr, nf>>
           [] OTHER         -> Goto(p, pc[p] + 1) /\ UNCHANGED <<tmp, new, file, wr, nf>>
